@@ -82,3 +82,20 @@ Proof.
   vm_compute; reflexivity.
 Qed.
 Print Assumptions C05_fifo_stoprequested_no_deadlock_refuted.
+
+(* The hand-off queue itself (Model/Lane.v = the code of SingleLane): no wake-up is lost. In every reachable state a
+   writer sitting in not_full.wait() faces a queue that is really full, or a reader that has already popped and is about
+   to notify it; symmetrically for the reader. Hence the lane never wedges its two users: if neither thread can move, one
+   of them has finished its script. *)
+From MpV Require Model.Lane Proof.LaneProof.
+Theorem C05_singlelane_no_lost_wakeup : forall (g : Lane.cfg) (sched : list Lane.label),
+  let s := run Lane.step g (Lane.init g) sched in
+  (Lane.pp s = Lane.TWaiting -> (0 < Lane.maxsize g /\ Lane.maxsize g <= length (Lane.q s)) \/ Lane.cp s = Lane.TNotify) /\
+  (Lane.cp s = Lane.TWaiting -> Lane.q s = [] \/ Lane.pp s = Lane.TNotify).
+Proof. exact LaneProof.lane_no_lost_wakeup. Qed.
+Print Assumptions C05_singlelane_no_lost_wakeup.
+
+Theorem C05_singlelane_not_wedged : forall (g : Lane.cfg) (sched : list Lane.label),
+  Lane.wedged g (run Lane.step g (Lane.init g) sched) = false.
+Proof. exact LaneProof.lane_not_wedged. Qed.
+Print Assumptions C05_singlelane_not_wedged.
